@@ -690,22 +690,32 @@ async fn step(w: &mut World, gates: &mut mpsc::UnboundedReceiver<GateEvent>, t: 
             // crash now: parked bodies never run, undelivered notes are lost. If tk != 0 the write of tk that
             // was in progress leaves a torn file: the real body writes the full ciphertext, of which only a
             // prefix is kept.
-            let tk = uz(&s["k"]);
-            let mut cut_info = json!({"full": 0, "kept": 0});
-            if tk != 0 {
+            // torn keys: `tks` (several writes were in progress), or the single `k` of older recorded scenarios
+            let mut tks: Vec<usize> = s.get("tks").and_then(|a| a.as_array()).map(|a| a.iter().map(uz).collect()).unwrap_or_default();
+            if tks.is_empty() && uz(&s["k"]) != 0 { tks.push(uz(&s["k"])); }
+            tks.sort();
+            tks.dedup();
+            let mut cuts = vec![];
+            // every prescribed key must have a write as its earliest parked body
+            for &tk in &tks {
                 let pos = w.parked.iter().position(|p| p.id.kind != "F" && p.id.k == tk);
-                match pos {
-                    Some(pos) if w.parked[pos].id.kind == "W" => {
-                        w.release(pos, gates).await;
-                        let path = w.file_of(tk);
-                        let full = std::fs::read(&path).unwrap_or_default();
-                        let cut = torn_len(full.len(), w.cut_sel);
-                        std::fs::write(&path, &full[..cut]).expect("torn write");
-                        cut_info = json!({"full": full.len(), "kept": cut});
-                    }
-                    _ => { res = json!("NoSuchTask"); extra = json!({"t": {"kind":"W","k":tk,"v":0}}); }
+                if !matches!(pos, Some(p) if w.parked[p].id.kind == "W") {
+                    res = json!("NoSuchTask"); extra = json!({"t": {"kind":"W","k":tk,"v":0}});
                 }
             }
+            if res == json!("Ok") {
+                for (j, &tk) in tks.iter().enumerate() {
+                    let pos = w.parked.iter().position(|p| p.id.kind != "F" && p.id.k == tk).expect("checked");
+                    w.release(pos, gates).await;
+                    let path = w.file_of(tk);
+                    let full = std::fs::read(&path).unwrap_or_default();
+                    let cut = torn_len(full.len(), w.cut_sel + 3 * j);
+                    std::fs::write(&path, &full[..cut]).expect("torn write");
+                    cuts.push(json!({"k": tk, "full": full.len(), "kept": cut}));
+                }
+            }
+            let cut_info = json!(cuts);
+            let tks_json = json!(tks);
             // every other restart is a restart twice in a row (the second one with no background work left: for the
             // model the same as one restart)
             w.restarts += 1;
@@ -732,7 +742,7 @@ async fn step(w: &mut World, gates: &mut mpsc::UnboundedReceiver<GateEvent>, t: 
                 w.paid = w.st().verif_received_payment_count();
                 // bodies of the crashed process are parked for ever; their late gate events are ignored
                 w.settle_constructor_flush(gates).await;
-                extra = json!({"cut": cut_info, "restarted": rounds});
+                extra = json!({"cut": cut_info, "restarted": rounds, "tks": tks_json, "k": 0});
             }
         }
         other => panic!("unknown step {other}"),
@@ -751,6 +761,7 @@ async fn step(w: &mut World, gates: &mut mpsc::UnboundedReceiver<GateEvent>, t: 
     if line.get("n").is_none() { line["n"] = json!({"kind": "-", "k": 0, "v": 0}); }
     if line.get("i").is_none() { line["i"] = json!(0); }
     if line.get("ni").is_none() { line["ni"] = json!(0); }
+    if line.get("tks").is_none() { line["tks"] = json!([]); }
     if let Some(e) = s.get("idx") { line["exp"] = json!({"idx": e, "rb": s["rb"], "res": s["res"], "out": s["out"]}); }
     t.emit(line);
 }
@@ -873,8 +884,13 @@ async fn run() {
             if n == crash_at {
                 // crash with or without a torn write (of a body that could be running)
                 let runnable_w: Vec<usize> = (1..=w.cfg.nk).filter(|&k| w.parked.iter().find(|p| p.id.kind != "F" && p.id.k == k).map(|p| p.id.kind == "W").unwrap_or(false)).collect();
-                let tk = if !runnable_w.is_empty() && rng.gen_bool(0.6) { *runnable_w.choose(&mut rng).expect("w") } else { 0 };
-                step(&mut w, &mut gates, &mut t, &json!({"ev":"Restart","k":tk}), "random").await;
+                // one, several or none of the writes that could be running leave a torn file
+                let mut tks: Vec<usize> = vec![];
+                if !runnable_w.is_empty() && rng.gen_bool(0.6) {
+                    tks.push(*runnable_w.choose(&mut rng).expect("w"));
+                    for &k in &runnable_w { if !tks.contains(&k) && rng.gen_bool(0.5) { tks.push(k); } }
+                }
+                step(&mut w, &mut gates, &mut t, &json!({"ev":"Restart","k":0,"tks":tks}), "random").await;
                 continue;
             }
             let s0 = random_step(&w, &mut rng, nv);
